@@ -482,6 +482,30 @@ theorem silent_after_remove (cap : Nat) (evs1 evs2 : List Ev) (i : Nat) (r : Rd)
   have hd := (hinv r hr).core.detached ha
   exact ⟨ha, hd.2, hd.1, by rw [run_append]; exact get_frozen _ evs2 i r h ha hd.2⟩
 
+/-! #### publisher switch -/
+
+/-- **only the current publisher**: a unit reaches the readers only if the sub stream that wrote it is the
+current one at the moment the write takes effect — in particular a write that starts while the replacement is
+already waiting for the stream lock is never delivered. -/
+theorem only_current_publisher (s : PubSt) (ev : PubEv) (tag : Nat) (h : (pubStep s ev).2 = some tag) :
+    (∃ p, ev = .write p tag ∧ p = s.cur) ∨ (∃ p, ev = .race p tag ∧ p = (pubStep s ev).1.cur) := by
+  cases ev with
+  | pub => simp [pubStep] at h
+  | write p t =>
+    simp only [pubStep] at h
+    split at h
+    · rename_i hp; cases h; exact Or.inl ⟨p, rfl, by simpa using hp⟩
+    · cases h
+  | race p t =>
+    simp only [pubStep] at h
+    split at h
+    · rename_i hp; cases h; exact Or.inr ⟨p, rfl, by simpa [pubStep] using hp⟩
+    · cases h
+
+theorem replaced_publisher_silent (s : PubSt) (p tag : Nat) (h : p ≤ s.cur) :
+    (pubStep s (.race p tag)).2 = none := by
+  simp [pubStep]; omega
+
 /-! #### non-vacuity and regression examples (kernel-decided) -/
 
 def exRun := run (init 1) [.add 0 [0], .add 1 [1], .write 0 10 [], .write 0 11 [], .write 0 12 [], .write 1 13 [],
